@@ -208,6 +208,21 @@ func walkNode(expr string, node promParser.Node) (src []Source) {
 	return src
 }
 
+// stringArg returns the value of a string argument, which can be wrapped in any number of parentheses.
+func stringArg(e promParser.Expr) string {
+	for {
+		p, ok := e.(*promParser.ParenExpr)
+		if !ok {
+			break
+		}
+		e = p.Expr
+	}
+	if sl, ok := e.(*promParser.StringLiteral); ok {
+		return sl.Val
+	}
+	return ""
+}
+
 func removeFromSlice(sl []string, s ...string) []string {
 	for _, v := range s {
 		idx := slices.Index(sl, v)
@@ -420,8 +435,8 @@ func walkAggregation(expr string, n *promParser.AggregateExpr) (src []Source) {
 			s.Aggregation = n
 			s.Operation = "count_values"
 			// Param is the label to store the count value in.
-			s = includeLabel(s, n.Param.(*promParser.StringLiteral).Val)
-			s = guaranteeLabel(s, n.Param.(*promParser.StringLiteral).Val)
+			s = includeLabel(s, stringArg(n.Param))
+			s = guaranteeLabel(s, stringArg(n.Param))
 			s = excludeMetricName(s, n)
 			src = append(src, s)
 		}
@@ -608,7 +623,7 @@ If you're hoping to get instance specific labels this way and alert when some ta
 	case "label_replace", "label_join":
 		// One label added to the results.
 		s.Returns = promParser.ValueTypeVector
-		s = guaranteeLabel(s, n.Args[1].(*promParser.StringLiteral).Val)
+		s = guaranteeLabel(s, stringArg(n.Args[1]))
 
 	case "pi":
 		s.Returns = promParser.ValueTypeScalar
